@@ -208,7 +208,7 @@ def _build(repo, outdir):
                 GNUC = ['-fgnuc-version=' + (gv if major < 7 else '6.5.0')]
         except Exception:
             pass
-        units = {'C': [], 'CXX': [], 'C11': []}
+        units = {'C': [], 'CXX': [], 'C11': [], 'CN': []}
         def src_of(e):
             f = e['file']
             f = f if os.path.isabs(f) else os.path.join(e['directory'], f)
@@ -231,6 +231,11 @@ def _build(repo, outdir):
             jobs.append([CLANG, '-DNSYNC_ATOMIC_C11', '-I' + os.path.join(repo, 'platform/c11')] + fl +
                         GNUC + ['-O0', '-Xclang', '-disable-O0-optnone', '-g', '-emit-llvm', '-c', src, '-o', o2, '-w'])
             units['C11'].append((src, o2))
+            # CN: the C configuration as a release build compiles it (-DNDEBUG): <assert.h> assertions, and whatever sits inside them, vanish
+            o3 = os.path.join(scratch, 'CN_%d.bc' % k)
+            jobs.append([CLANG, '-DNDEBUG', '-I' + os.path.join(repo, 'platform/gcc_new')] + fl +
+                        GNUC + ['-O0', '-Xclang', '-disable-O0-optnone', '-g', '-emit-llvm', '-c', src, '-o', o3, '-w'])
+            units['CN'].append((src, o3))
         for k, e in enumerate(ent_x):
             fl = _flags_from(e)
             src = src_of(e)
@@ -256,7 +261,7 @@ def _build(repo, outdir):
             _run([IRFACTS, bc, out])
             return out
         work = []
-        for cfg, passes in (('C', 'sroa'), ('CXX', 'sroa'), ('C11', 'sroa')):
+        for cfg, passes in (('C', 'sroa'), ('CXX', 'sroa'), ('C11', 'sroa'), ('CN', 'sroa')):
             for k, (_, o) in enumerate(units[cfg]):
                 work.append((cfg, k, o, passes))
         with ThreadPoolExecutor(max_workers=16) as ex:
@@ -264,7 +269,7 @@ def _build(repo, outdir):
         bycfg = {}
         for (cfg, k, _, _), o in zip(work, outs):
             bycfg.setdefault(cfg, []).append(o)
-        for cfg in ('C', 'CXX', 'C11'):
+        for cfg in ('C', 'CXX', 'C11', 'CN'):
             merged = merge_facts([json.load(open(o)) for o in bycfg[cfg]])
             with open(os.path.join(outdir, cfg + '.json'), 'w') as f:
                 json.dump(merged, f)
